@@ -14,7 +14,7 @@ def run(tier, seed):
     traces = {}
     for s in (44, 65, 87):
         vlib.drive(bindir, "sign", sets=s, seed=seed, nfull=nfull, nfactor=nfactor, allctx=allctx, acvp=acvp, nacvp=nacvp,
-                   acvpoff=seed % 10, nhunt=4500 if tier == "quick" else 60000, nhuntfull=2 if tier == "quick" else 12, out=chk.workdir)
+                   acvpoff=seed % 10, nhunt=6000 if tier == "quick" else 80000, nhuntfull=2 if tier == "quick" else 12, out=chk.workdir)
         traces[s] = os.path.join(chk.workdir, "sign_%d.ndjson" % s)
     n, mism = common.validate_f(chk, traces, nproc=12, key_of=lambda m: "sign:" + m["ev"])
     common.acvp_anchor(chk, 0, 1 if tier == "quick" else 4, 0, seed)
